@@ -101,7 +101,7 @@ thread_local! {
     static FILL_STYLE: std::cell::Cell<u8> = const { std::cell::Cell::new(0) };
 }
 
-pub const FILL_STYLES: [u8; 16] = [0, 1, 2, 3, 4, 5, 6, 7, 8, 9, 10, 11, 12, 13, 14, 15];
+pub const FILL_STYLES: [u8; 20] = [0, 1, 2, 3, 4, 5, 6, 7, 8, 9, 10, 11, 12, 13, 14, 15, 16, 17, 18, 19];
 
 /// a DER TLV of exactly `total` bytes (total >= 2): tag, definite length (minimal where a minimal form of that
 /// total size exists), content from `body`
@@ -223,9 +223,33 @@ impl W {
     /// 1 = all zero, 2 = `00 ff 00 ff ..`, 3 = `00 80 ff 7f ..` (leading zero before a high
     /// bit), 4 = all ff, 5 = `80 00 00 ..` (high bit first), 6..9 = DER-shaped (tag 06 / 30 / 04 / 02 with a
     /// definite length that covers the rest of the field), 10 / 11 = SEQUENCE whose length is short / long,
-    /// 12..15 = nested DER (signature value, with trailing bytes, certificate outline).
+    /// 12..15 = nested DER (signature value, with trailing bytes, certificate outline), 16..19 = SEQUENCE headers
+    /// with four / nine length octets, indefinite length, the reserved length form.
     pub fn fill(&mut self, n: usize, seed: u8) -> &mut W {
         let style = FILL_STYLE.with(|s| s.get());
+        if (16..=19).contains(&style) {
+            // DER SEQUENCE headers with unusual length forms: 16 = four length octets (30 84 00 00 hi lo), 17 = nine length
+            // octets (30 89 ..), 18 = indefinite length (30 80 .. 00 00), 19 = the reserved form 30 ff followed by 127 octets
+            let mut v: Vec<u8> = Vec::with_capacity(n);
+            let hdr: Vec<u8> = match style {
+                16 => {
+                    let c = n.saturating_sub(6);
+                    vec![0x30, 0x84, (c >> 24) as u8, (c >> 16) as u8, (c >> 8) as u8, c as u8]
+                }
+                17 => {
+                    let c = n.saturating_sub(11);
+                    vec![0x30, 0x89, 0, 0, 0, 0, 0, 0, 0, (c >> 8) as u8, c as u8]
+                }
+                18 => vec![0x30, 0x80],
+                _ => vec![0x30, 0xff],
+            };
+            v.extend(hdr.into_iter().take(n));
+            while v.len() < n {
+                v.push(if style == 18 && v.len() + 2 >= n { 0 } else { seed.wrapping_add((v.len() % 251) as u8) | 1 });
+            }
+            self.buf.extend_from_slice(&v);
+            return self;
+        }
         if (12..=15).contains(&style) {
             // nested DER: 12 = SEQUENCE { INTEGER, INTEGER } filling the field, 13 / 14 = the same followed by 1 / 3
             // bytes inside the field, 15 = a certificate outline; fields too short for it get the counting pattern
